@@ -218,6 +218,8 @@ class Evaluator:
         c = self.const(e)
         if c is not None:
             return Form.k(c)
+        if isinstance(e, ast.Constant) and isinstance(e.value, bool):
+            return Form.k(int(e.value))  # True / False as a stored bit
         if isinstance(e, ast.BinOp):
             op = e.op
             if isinstance(op, (ast.Add, ast.Sub)):
